@@ -69,7 +69,7 @@ def instances():
            ("str", "STR", ["i", "b", "s", "n"]), ("num", "NUM", ["s", "i", "d", "b", "n"]), ("isnum", "ISNUM", ["s", "i", "n"]), ("hex", "HEX", ["i", "ii", "n"]),
            ("raw", "RAW", ["i", "ii", "s", "n"]), ("replace", "REPLACE", ["sss"]), ("tokenize", "TOKENIZE", ["ss", "ssb"]), ("b64enc", "B64ENC", ["s", "t", "n"]),
            ("b64dec", "B64DEC", ["s", "n"]), ("typeof", "TYPEOF", ["i", "s", "n"]), ("strpos", "STRPOS", ["ssi"]), ("subraw", "SUBRAW", ["ti"]), ("hash", "HASH", ["s", "ti"])]
-    QUICKGEN = {("mod", "ii"), ("sign", "i"), ("min", "ii"), ("max", "ii"), ("floor", "d"), ("round", "d"), ("bool", "i"), ("isnum", "s"), ("hex", "i"), ("typeof", "i"), ("clamp", "iii")}
+    QUICKGEN = {("mod", "ii"), ("sign", "i"), ("min", "ii"), ("max", "ii"), ("floor", "d"), ("round", "d"), ("bool", "i"), ("isnum", "s"), ("hex", "i"), ("typeof", "i"), ("clamp", "iii"), ("strpos", "ssi")}
     for n, c, kindlist in GEN:
         for kinds in kindlist:
             extra = ["blocc/builtin/base64.cpp"] if n.startswith("b64") else []
